@@ -261,7 +261,18 @@ def contradictory(path):
                 for k in [k for k in seen if _mentions(k, n)]:
                     del seen[k]
         elif ev.kind == 'cond':
-            txt = '%d:%s' % (ev.frame.fid, U(getattr(ev, '_sub', None) or ev.node))
+            sub_ = getattr(ev, '_sub', None) or ev.node
+            fid = ev.frame.fid
+            fn_ = getattr(ev.frame, 'func', None)
+            if fid != 0 and fn_ is not None and getattr(ev, '_sub', None) is not None:
+                # a condition of an inlined helper that, after substitution, speaks only in terms of the caller (none of the helper's
+                # own parameters / locals is left in it) is the caller's condition
+                own = set(getattr(fn_, 'params', ())) | {n.id for n in ast.walk(fn_.node) if isinstance(n, ast.Name) and isinstance(n.ctx, ast.Store)}
+                if getattr(fn_, 'cls', None) is not None and getattr(ev.frame, 'cls', None) is not None:
+                    own.discard('self')      # helpers are inlined on the same receiver
+                if not ({n.id for n in ast.walk(sub_) if isinstance(n, ast.Name)} & own):
+                    fid = 0
+            txt = '%d:%s' % (fid, U(sub_))
             if txt in seen and seen[txt] != ev.a:
                 return True
             seen[txt] = ev.a
